@@ -47,3 +47,9 @@ open Ekit.RB
 #print axioms Ekit.MiniGo.RBHeap.Rot.rotateRight_spec
 #print axioms Ekit.MiniGo.RBHeap.AddN.addNode_spec
 #print axioms Ekit.MiniGo.RBHeap.Del.deleteNode_spec
+#print axioms Ekit.MiniGo.RBHeap.c02_ptr_step_ordered_of
+#print axioms Ekit.MiniGo.RBHeap.c02_ptr_history_ordered_of
+#print axioms Ekit.MiniGo.RBHeap.call_pure
+#print axioms Ekit.MiniGo.RBHeap.Succ.findSuccessor_spec
+#print axioms Ekit.MiniGo.RBHeap.AddN.addNode_ord
+#print axioms Ekit.MiniGo.RBHeap.Del.deleteNode_ord
